@@ -71,6 +71,11 @@ def describe(sim, ss):
         if getattr(intv, 'product', None) is not None:
             p = intv.product
             mods.append((p.name, 'products', isinstance(p, ss.Disease), [float(x) for x in p.t.abstvec], p))
+    # module objects, not names, identify the owners of schedule rows: two products may share their (default) name
+    seen = {}
+    for i, m in enumerate(mods):
+        seen[m[0]] = seen.get(m[0], 0) + 1
+        if seen[m[0]] > 1: mods[i] = (f'{m[0]}#{seen[m[0]]}',) + m[1:]
     return [float(x) for x in sim.t.abstvec], mods
 
 
@@ -145,7 +150,7 @@ def run(ctx):
                        'with per-module dt/unit/start/stop overrides on year- and day-based sims; the model plan and executed clock trace are compared '
                        'row by row with sim.loop.plan and a single-stepped real run; non-trivial = at least one module on a timeline different from the sim')
     terms, metas = [], []
-    n = ctx.n(14, 300)
+    n = ctx.n(17, 300)
     mingap = 1e9
     def forced(c):
         """calendar sims whose step is not one unit, with modules on another unit / step (always included)"""
@@ -153,11 +158,20 @@ def run(ctx):
         if c == 0:
             kw = dict(unit='day', dt=2.0, start='2020-01-01', dur=28)
             return ss.Sim(n_agents=30, diseases=ss.SIR(unit='week', dt=1.0), networks=ss.RandomNet(), demographics=ss.Deaths(dt=7.0), analyzers=ProbeAna(name='pana0', dt=4.0), verbose=0, **kw), kw
+        if c == 2:      # modules of the sim's own unit with whole-number steps that start later than the sim
+            kw = dict(unit='day', dt=1.0, start='2020-01-01', dur=21)
+            return ss.Sim(n_agents=30, diseases=ss.SIR(unit='day', dt=2.0, start='2020-01-11'), networks=ss.RandomNet(), interventions=ProbeIntv(name='pintv0', unit='day', dt=1.0, start='2020-01-05'), analyzers=ProbeAna(name='pana0', unit='day', dt=3.0, start='2020-01-04', stop='2020-01-19'), verbose=0, **kw), kw
+        if c == 3:
+            kw = dict(unit='week', dt=1.0, start='2020-01-01', dur=10)
+            return ss.Sim(n_agents=30, diseases=ss.SIS(unit='week', dt=1.0, start='2020-01-22'), networks=ss.RandomNet(), analyzers=ProbeAna(name='pana0', unit='week', dt=2.0, start='2020-01-15'), verbose=0, **kw), kw
+        if c == 4:      # two interventions, each with its own product of the same (default) name
+            kw = dict(unit='year', dt=1.0, start=2000, dur=5)
+            return ss.Sim(n_agents=30, diseases=ss.SIR(), networks=ss.RandomNet(), interventions=[ss.routine_vx(name='vxa', start_year=2000, prob=0.1, product=ss.sir_vaccine()), ss.routine_vx(name='vxb', start_year=2001, prob=0.2, product=ss.sir_vaccine(efficacy=0.5))], verbose=0, **kw), kw
         kw = dict(unit='week', dt=2.0, start='2020-01-01', dur=12)
         return ss.Sim(n_agents=30, diseases=ss.SIS(unit='day', dt=7.0), networks=ss.RandomNet(dt=4.0), interventions=ProbeIntv(name='pintv0', unit='week', dt=1.0), verbose=0, **kw), kw
     for c in range(n):
         try:
-            sim, simkw = forced(c) if c < 2 else make_sim(ss, rng)
+            sim, simkw = forced(c) if c < 5 else make_sim(ss, rng)
             sim.init()
         except Exception as E:
             ctx.dist('config rejected by constructor: ' + type(E).__name__); continue
@@ -170,9 +184,11 @@ def run(ctx):
         plan = sim.loop.plan
         executed = []
         owners = {m[0]: m[4] for m in mods}
+        keyof = {id(m[4]): m[0] for m in mods}
         try:
             for i in range(len(plan)):
                 modname, fname, t = plan.module[i], plan.func_name[i], float(plan.time[i])
+                modname = keyof.get(id(getattr(plan.func[i], '__self__', None)), modname)
                 oti = sim.t.ti if modname in ('sim', 'people') else owners[modname].t.ti
                 executed.append((modname, fname, t, int(oti), int(sim.t.ti)))
                 sim.loop.run_one_step()
@@ -184,6 +200,9 @@ def run(ctx):
                 ctx.violation(f'{label}: after completion {name}.ti = {obj.t.ti}, final index is {len(vec)-1}', dict(config=label, module=name))
         if sim.t.ti != len(simvec) - 1:
             ctx.violation(f'{label}: after completion sim.ti = {sim.t.ti}, final index is {len(simvec)-1}', dict(config=label))
+        for name, grp, isd, vec, obj in mods:
+            if not any(e[0] == name for e in executed):
+                ctx.violation(f'{label}: module {name} ({grp}) never appears in the schedule: none of its per-step methods is invoked', dict(config=label, module=name))
         reference_oracle(ctx, ss, sim, executed, label)
         # Coq case
         ids = {m[0]: i for i, m in enumerate(mods)}
